@@ -1234,6 +1234,12 @@ static std::string genNopt(Rng& r, const Args&) {
     kws.push_back(k);
     ks += " " + hx(k);
   }
+  // pre-existing entries for some keywords: empty ("not yet specified") or set
+  if (!kws.empty() && r.coin(1, 2)) {
+    pre.clear();
+    for (auto& k : kws)
+      if (isDottedKey(k) && r.coin(2, 3)) pre += k + " = " + (r.coin() ? "" : (r.coin() ? "set" : "\"\"")) + "\n";
+  }
   std::vector<std::string> args;
   // positional arguments and named ones drawn from the keywords
   long n = r.range(0, 5);
